@@ -21,6 +21,7 @@ type Row struct {
 	Min, Max int   // bounds on the length field (FLV, FLVE, FTLV, FTLVE)
 	N        int   // value octets (FV, FTV)
 	Lens     []int // if non-nil: the only admissible values of the length field
+	Cap      int   // library storage: fixed array of Cap octets (0: variable-size buffer)
 }
 
 // Elem is one decoded / to-be-encoded information element.
@@ -180,3 +181,39 @@ func Encode(rows []Row, es []Elem) []byte {
 
 // Size returns the encoded size of the elements.
 func Size(rows []Row, es []Elem) int { return len(Encode(rows, es)) }
+
+// Pad returns es with the value of every element stored in a fixed array zero-padded to the array size
+// (a decoded element must not retain octets of anything else beyond its declared length).
+func Pad(rows []Row, es []Elem) []Elem {
+	out := make([]Elem, len(es))
+	copy(out, es)
+	for i, r := range rows {
+		if r.Cap > 0 && es[i].Present {
+			v := make([]byte, r.Cap)
+			copy(v, es[i].V)
+			out[i].V = v
+		}
+	}
+	return out
+}
+
+// WellFormed: every present element with a length field has a length within the table bounds and, unless it lives
+// in a fixed array, exactly that many value octets (the precondition of the encode/decode round trip).
+func WellFormed(rows []Row, es []Elem) bool {
+	for i, r := range rows {
+		e := es[i]
+		if !e.Present {
+			continue
+		}
+		switch r.F {
+		case FLV, FLVE, FTLV, FTLVE:
+			if !lenOK(r, e.L) {
+				return false
+			}
+			if r.Cap == 0 && len(e.V) != e.L {
+				return false
+			}
+		}
+	}
+	return true
+}
